@@ -14,6 +14,7 @@ mod c14;
 mod c16;
 #[cfg(feature = "hooks")]
 mod c17;
+mod c18;
 mod c13;
 mod fp;
 mod grp;
@@ -32,6 +33,9 @@ fn profile() -> &'static str {
 
 /// run the same check in the dbg build (debug assertions + overflow checks) and merge its summary
 pub fn run_child_profile(run: &Run, id: &str) {
+    run_child_profile_tier(run, id, run.tier)
+}
+pub fn run_child_profile_tier(run: &Run, id: &str, tier: Tier) {
     if profile() != "release" {
         return; // we are the child
     }
@@ -44,7 +48,7 @@ pub fn run_child_profile(run: &Run, id: &str) {
     };
     let out = std::process::Command::new(&bin)
         .arg(id)
-        .arg(run.tier.name())
+        .arg(tier.name())
         .arg("--child")
         .env("VERIF_SEED", run.seed.to_string())
         .stderr(std::process::Stdio::inherit())
@@ -103,6 +107,7 @@ fn table(id: &str) -> Option<(RunFn, MetaFn)> {
         "C17" => (c17::run, c17::meta),
         #[cfg(not(feature = "hooks"))]
         "C17" => (no_hooks_run, no_hooks_meta),
+        "C18" => (c18::run, c18::meta),
         "C07" => (c07::run, c07::meta),
         "C12" => (c12::run, c12::meta),
         "C13" => (c13::run, c13::meta),
@@ -122,6 +127,7 @@ fn replay_table(op: &str) -> Option<ReplayFn> {
         "c13" => c13::replay,
         "c14" => c14::replay,
         "c16" => c16::replay,
+        "c18" => c18::replay,
         #[cfg(feature = "hooks")]
         "c17" => c17::replay,
         _ => return None,
@@ -150,6 +156,14 @@ fn main() {
                 }
             }
             std::process::exit(if bad == 0 { 0 } else { 2 });
+        }
+        "transcript" => {
+            c18::transcript_main(seed);
+            std::process::exit(0);
+        }
+        "records" => {
+            c18::records_main(seed, &args[2], args[3].parse().unwrap(), args[4].parse().unwrap());
+            std::process::exit(0);
         }
         "replay" => {
             let path = args.get(2).expect("replay <file>");
